@@ -62,7 +62,7 @@ func (a Action) String() string {
 			k = 2 + a.C
 		}
 		return "ERR:" + strconv.FormatInt(k, 10)
-	case "CT", "CTL", "z", "K":
+	case "CT", "CTL", "z", "K", "PRIV", "PUB":
 		return a.Op + ":" + strconv.FormatInt(a.C, 10)
 	}
 	return a.Op
@@ -254,6 +254,14 @@ func (e *Env) apply(a Action) {
 		}
 		w.mu.Unlock()
 		e.Affected(a.C, p, 0)
+	case "PRIV", "PUB": // the channel becomes inaccessible / accessible again
+		w.mu.Lock()
+		if a.Op == "PRIV" {
+			w.Private[a.C] = true
+		} else {
+			delete(w.Private, a.C)
+		}
+		w.mu.Unlock()
 	case "U": // the client learns the access hashes of these users (from some other request)
 		w.mu.Lock()
 		for _, u := range a.IDs {
@@ -283,6 +291,7 @@ func (e *Env) apply(a Action) {
 	case "T":
 		e.Push(&tg.UpdatesTooLong{})
 	case "CT":
+		before := e.servedCount("c" + strconv.FormatInt(a.C, 10))
 		w.mu.Lock()
 		p := w.chanState(a.C)
 		w.mu.Unlock()
@@ -296,7 +305,7 @@ func (e *Env) apply(a Action) {
 		started := w.Started[a.C]
 		w.mu.Unlock()
 		if started { // a channel without a worker ignores the update and asks for nothing
-			e.waitExtrasServed("c" + strconv.FormatInt(a.C, 10))
+			e.waitExtrasServed("c"+strconv.FormatInt(a.C, 10), before)
 		}
 	case "W":
 		time.Sleep(650 * time.Millisecond)
@@ -739,6 +748,8 @@ func Owner(w *World, e Event) string {
 		if e.Key == "" {
 			return "main"
 		}
+		return e.Key
+	case "I":
 		return e.Key
 	case "D":
 		if len(e.IDs) > 0 {
